@@ -63,6 +63,7 @@ CALLABLE = Function('callable', Val, BoolSort())
 HASHABLE = Function('hashable', Val, BoolSort())
 STARTSWITH = Function('startswith', Val, Val, BoolSort())
 ENDSWITH = Function('endswith', Val, Val, BoolSort())
+ITEMS_OF = Function('items_of_iterating', Val, Val, BoolSort())   # y is produced by iterating the single value x (a character of the string x)
 CONTAINS = Function('str_contains', Val, Val, BoolSort())      # literal in s  (substring test on a symbolic string)
 
 CLS_LIST = Const('class_list', Cls)
@@ -624,6 +625,11 @@ class Maps:
                 return v
             if v.kind == 'pdict':
                 return SV('pset', None, ps=PSet(v.pd.dom))
+            if v.kind == 'val' and v.f.get('ty') in ('str', 'elem'):
+                # set(x) of a value that is not a container iterates x itself: the characters of a string (a TypeError for a number); nothing
+                # relates those items to x, so membership is an uninterpreted predicate of (x, item)
+                ex.use('axiom:set(x) of a single (non-container) value holds the items of iterating x - for a string its characters - and is unrelated to {x}')
+                return SV('pset', None, ps=PSet(lambda y, t=v.t: ITEMS_OF(t, y)))
             raise OutOfSubset('set(%s)' % v.kind)
         if fname == 'list' and len(args) <= 1:
             if not args:
